@@ -263,6 +263,11 @@ func makeUmemo(twoU, n1 int, t []int) []map[ukey]float64 {
 		Asum := 0.0
 		r2Low := max(0, A_2i.n1-t[0])
 		r2High := (A_2i.twoU - A_2i.n1*(t[0]-A_2i.n1)) / N_2
+		if A_2i.twoU-A_2i.n1*(t[0]-A_2i.n1) < 0 {
+			// Integer division truncates toward zero, but no r2
+			// satisfies the bound if the numerator is negative.
+			r2High = -1
+		}
 		for r2 := r2Low; r2 <= r2High; r2++ {
 			Asum += mathChoose(t[0], A_2i.n1-r2) *
 				mathChoose(t[1], r2)
